@@ -305,7 +305,7 @@ P2P_GOALS = {
                                         {"a": "Sub", "s": "s1", "t": "p12", "mode": ["-"], "chan": False, "bg": False},
                                         {"a": "Pub", "s": "s1", "t": "p12", "c": "c1", "noecho": False, "chan": False}]),
     "p2p_one_side_unsubscribed_unloaded": ('st.topics["p12"].exists /\\ st.subs["p12"]["u1"].st = "del" /\\ st.subs["p12"]["u2"].st = "live" /\\ ~st.cache["p12"].loaded '
-                                           '/\\ st.topics["p12"].seq > 0',
+                                           '/\\ st.topics["p12"].seq > 0 /\\ st.subs["p12"]["u2"].recv > 0',
                                            [{"a": "Sub", "s": "s1", "t": "p12", "mode": ["-"], "chan": False, "bg": False},
                                             {"a": "Pub", "s": "s1", "t": "p12", "c": "c1", "noecho": False, "chan": False},
                                             {"a": "Sub", "s": "s2", "t": "p12", "mode": ["-"], "chan": False, "bg": False},
